@@ -305,3 +305,25 @@ PROPS['C20'] = dict(
     assumptions=['types.Info is built by the harness for each shape (Types, Uses); every shape is type-correct Go by construction of the table', 'objectCache.varDecl is a stub returning a declaration of symbolic shape',
                  'fmt / token.FileSet.Position text is opaque'],
 )
+
+
+def gather(skeleton, K=2, inputs=2):
+    return spec('H_gather', pkg=MAIN_PKG, overlay='harness/main', overlay2=[('harness/wire', WIRE_PKG)],
+                interp=['errors', WIRE_PKG, 'go/types', 'golang.org/x/tools/go/types/typeutil', 'go/token', 'go/ast'],
+                params=dict(skeleton=skeleton, K=K, inputs=inputs), label='H_gather[%d,K=%d,inputs=%d]' % (skeleton, K, inputs))
+
+
+def checkgen(skeleton, K=2, missing=1):
+    return spec('H_checkgen', params=dict(skeleton=skeleton, K=K, missing=missing), interp=INTERP_TYPES, replayable=False,
+                label='H_checkgen[%d,K=%d]' % (skeleton, K))
+
+
+PROPS['C19'] = dict(
+    level=MC,
+    quick=[checkgen(1167), checkgen(11567, K=1), gather(1136), gather(13163, K=1), cli('H_cli_check', 2), cli('H_cli_show', 2)],
+    thorough=[checkgen(11167), checkgen(115167, K=1), checkgen(13167), gather(11136), gather(113163), cli('H_cli_check', 3), cli('H_cli_show', 3)],
+    covers={'H_checkgen': ['both-accept', 'both-reject'], 'H_gather': ['gathered', 'groups>=2'], 'H_cli_check': ['check-exit0', 'check-exit1']},
+    bounds_text='Load and Generate run on the same symbolic provider graph (skeletons as C02, symbolic HasErr/HasCleanup, all four injector result shapes, one missing type): Load errs iff Generate errs; gather on acyclic graphs with symbolic edges over providers/fields/values split over an outer and a nested named set with 2 external input types: every output in exactly one group whose inputs are exactly the required external types',
+    outside='the text layout of wire show; well-formedness of provider-set variables through the real parser (processExpr is covered by C20, the loader is stubbed)',
+    assumptions=COMMON_ASSUME + ['load, findInjectorBuild, processNewSet (returns the harness\'s set), writeAST, copyNonInjectorDecls and format.Source are stubs in H_checkgen'],
+)
